@@ -260,6 +260,88 @@ def check_C10(tier):
     return ck.finish()
 
 
+def tt_cfg(nslots, tags, depths, vals, types, moves, maxage, maxops, chains, seed, extra=""):
+    def st(x):
+        return x if isinstance(x, str) else "{" + ", ".join(map(str, x)) + "}"
+    return ("SPECIFICATION Spec\nCONSTANTS\n  NSlots = %d\n  Tags = %s\n  Depths %s\n  Vals %s\n  Types = %s\n  Moves = %s\n"
+            "  MaxAge = %d\n  MaxOps = %d\n  Chains = %d\n  Seed = %d\n%sCHECK_DEADLOCK FALSE\n"
+            % (nslots, st(tags), depths, vals, st(types), st(moves), maxage, maxops, chains, seed, extra))
+
+
+def check_C11(tier):
+    ck = Check("C11", tier)
+    quick = tier == "quick"
+    # 1. the abstract model, exhaustively (history variables hidden by the VIEW)
+    dset = "= {0, 1}" if quick else "= {0, 1, 2}"
+    vset = "= {0, 1}" if quick else "= {0, 1, 2}"
+    a1 = vlib.tlc("TT", tt_cfg(2, [1, 2], dset, vset, [1, 2], [0, 1], 3, 60, 0, 1,
+                               "VIEW absView\nINVARIANTS TypeOK LookupIntact CountExact\nPROPERTIES EvictionRule NoSilentLoss\n"),
+                  workers=16, tag="tt-exh", keep_out=False)
+    ck.add_tlc(a1)
+    # 2. generator: pseudo-random chains over colliding keys, boundary depths and values
+    nch, nops = (100, 200) if quick else (2000, 500)
+    a2 = vlib.tlc("TT", tt_cfg(4, [1, 2, 3, 4], "<- ChainDepths", "<- ChainVals", [1, 2, 3], [0, 1, 2], 100, nops, nch, SEED,
+                               "INVARIANTS TypeOK LookupIntact CountExact Obs\nPROPERTIES EvictionRule NoSilentLoss\n"),
+                  workers=16, tag="tt-chains", timeout=4 * 3600)
+    ck.add_tlc(a2)
+    run = vlib.scratch("tt")
+    try:
+        res = vlib.run_driver(["tt-replay", "-obs", vlib.art_out(a2), "-out", os.path.join(run, "res.json")], cwd=run)
+        ck.add_result(res)
+        cnt = dict(res["counters"])
+        # 3. the other direction: histories driven on the real table, validated by TTTrace
+        ntr, ln = (20, 300) if quick else (8 * 40, 500)
+        files = 1 if quick else 8
+        accepted = 0
+        for k in range(files):
+            tf = os.path.join(run, "tt%d.ndjson" % k)
+            vlib.run_driver(["tt-record", "-trace", tf, "-num", ntr // files, "-len", ln, "-seed", SEED * 100 + k], cwd=run)
+            trace = open(tf).read()
+            nlines = trace.count("\n")
+            cfg = tt_cfg(4, [1, 2, 3, 4], "<- ChainDepths", "<- ChainVals", [1, 2, 3], [0, 1, 2], 1000, 100000000, 1, 1,
+                         '  TraceFile = "trace.ndjson"\nINVARIANTS TypeOK LookupIntact CountExact\nPOSTCONDITION TraceAccepted\n').replace(
+                             "SPECIFICATION Spec", "SPECIFICATION TSpec").replace("CONSTANTS\n", "CONSTANTS\n", 1)
+            # constants block must contain TraceFile: move it up
+            cfg = cfg.replace('  TraceFile = "trace.ndjson"\n', "").replace("CONSTANTS\n", 'CONSTANTS\n  TraceFile = "trace.ndjson"\n', 1)
+            art = vlib.tlc("TTTrace", cfg, files={"trace.ndjson": trace}, workers=1, tag="tt-trace", cache=False, expect_ok=False,
+                           keep_out=False)
+            st = vlib.art_stats(art)
+            import shutil
+            shutil.rmtree(art, ignore_errors=True)
+            cnt["C11.trace_events"] = cnt.get("C11.trace_events", 0) + nlines
+            if st.get("diameter", 0) - 1 == nlines and not st["error"]:
+                accepted += ntr // files
+            elif st.get("diameter"):
+                bad = st["diameter"]          # 1-based line that could not be matched
+                lines = trace.splitlines()
+                ev = json.loads(lines[bad - 1]) if bad - 1 < len(lines) else {}
+                start = max(i for i in range(bad) if '"Reset"' in lines[i])
+                d = {"prop": "C11", "kind": "trace-rejected", "sig": "trace/" + ev.get("ev", "?"),
+                     "detail": {"event": ev, "line": bad, "note": "the real table's reply is not a step of TT.tla"},
+                     "replay": {"trace": [json.loads(x) for x in lines[start:bad]]}}
+                ck.discs.append(d)
+                ck.disc_count["C11|trace-rejected|" + d["sig"]] = ck.disc_count.get("C11|trace-rejected|" + d["sig"], 0) + 1
+            else:
+                raise Inconclusive("TTTrace run failed: %s" % st.get("error"))
+            ck.cov["states"] += st.get("distinct_states", 0)
+            ck.cov["transitions"] += st.get("states_generated", 0)
+        cnt["C11.traces_accepted"] = accepted
+    finally:
+        import shutil
+        shutil.rmtree(run, ignore_errors=True)
+    ck.cov["evaluations"] = cnt.get("C11.operations", 0) + cnt.get("C11.values_roundtrip", 0) + cnt.get("C11.trace_events", 0)
+    ck.cov["distinct_nontrivial"] = cnt.get("C11.nontrivial", 0)
+    ck.cov["traces_validated_against_impl"] = cnt.get("C11.behaviours", 0) + accepted
+    ck.cov["rule"] = ("TLC-generated operation chains over 4 slots x 4 colliding tags (all boundary depths, draw/mate/extreme values, "
+                      "MoveNone) replayed on a real 1 MB table with the full projection compared after each step; every value "
+                      "-10000..10000 x 4 moves stored and read back; real random histories validated by TTTrace.tla; "
+                      "non-trivial = stores that meet a slot held by a different key")
+    ck.cov["counters"] = cnt
+    ck.assumptions += ["key 0 is the engine's empty marker and is never used as a key (a Zobrist key of 0 has probability 2^-64)",
+                       "AgeEntries is applied fewer than 100 times in a row (the age is an int8)"]
+    return ck.finish()
+
+
 GEO_TABLES = ["knight", "king", "pseudoB", "pseudoR", "pseudoQ", "filesWest", "filesEast", "fileWest", "fileEast",
               "ranksNorth", "ranksSouth", "neighbours", "center", "castle", "pawn", "passed", "ray", "to", "shift",
               "between", "dist"]
